@@ -168,6 +168,10 @@ class Ctx:
         dt = time.time() - t0
         rec = {"name": name, "verdict": {"unsat": "holds", "sat": "counterexample", "unknown": "unknown"}[r],
                "seconds": round(dt, 3), "solver": "z3 " + z3.get_version_string()}
+        try:      # an obligation whose goal the term simplifier already reduces to true needed no solver reasoning
+            rec["nontrivial"] = not z3.is_true(z3.simplify(goal))
+        except Exception:
+            rec["nontrivial"] = True
         if logic:
             rec["logic"] = logic
         if sample is not None:
@@ -306,7 +310,9 @@ class Ctx:
         wall = time.time() - self.t0
         real_q = [q for q in self.queries if not q["name"].endswith("#vacuity-twin")]
         decided = [q for q in real_q if q["verdict"] in ("holds", "counterexample", "sat", "unsat")]
-        names = {q["name"] for q in decided if q.get("seconds", 0) > 0 or q.get("nontrivial")}
+        # deterministic: a decided obligation counts unless its goal simplified to true syntactically (recorded by query());
+        # witness / twin records and explicitly marked records count
+        names = {q["name"] for q in decided if q.get("nontrivial", True)}
         samples = self.samples[:]
         for q in real_q[:8]:
             samples.append({k: q[k] for k in q if k in ("name", "verdict", "seconds", "logic", "sample")})
@@ -314,8 +320,8 @@ class Ctx:
             "evaluations": len(self.queries),
             "distinct_nontrivial": len(names),
             "rule": "one evaluation = one SMT query (or CrossHair condition) sent to the solver, vacuity twins included; "
-                    "distinct_nontrivial = distinct named obligations that were decided (holds/counterexample) by the solver "
-                    "rather than by term simplification",
+                    "distinct_nontrivial = distinct named obligations that were decided (holds/counterexample/sat) and whose goal "
+                    "does not already simplify to true by z3's term simplifier (a deterministic count, independent of timing)",
             "samples": samples or [{"note": "no query was issued"}],
             "queries": self.queries,
             "functions_encoded": self.functions,
